@@ -29,6 +29,8 @@ def slug(s):
 
 def write_replay(pid, key, case, msg):
     d = os.path.join(VERIF, 'replays')
+    if os.environ.get('VERIF_EVIDENCE_DIR'):
+        d = os.path.join(os.environ['VERIF_EVIDENCE_DIR'], 'replays')
     os.makedirs(d, exist_ok=True)
     path = os.path.join(d, f'{pid}-{slug(key)}.json')
     with open(path, 'w') as f:
@@ -116,8 +118,9 @@ def main(argv=None):
         'wall_s': round(wall, 2),
         'violations': len(new),
     }
-    os.makedirs(os.path.join(VERIF, 'evidence'), exist_ok=True)
-    with open(os.path.join(VERIF, 'evidence', f'{pid}.json'), 'w') as f:
+    evdir = os.environ.get('VERIF_EVIDENCE_DIR') or os.path.join(VERIF, 'evidence')
+    os.makedirs(evdir, exist_ok=True)
+    with open(os.path.join(evdir, f'{pid}.json'), 'w') as f:
         json.dump(ev, f, indent=1, sort_keys=True)
         f.write('\n')
 
